@@ -283,10 +283,30 @@ pub fn run(prop: &str, tier: &str) -> i32 {
         }
     }
     let mut replay_files: Vec<String> = Vec::new();
+    let mut foreign_saved: BTreeSet<String> = BTreeSet::new();
     for v in &violations {
         let class = v["class"].as_str().unwrap_or("").to_string();
         let text = v["text"].as_str().unwrap_or("").to_string();
         if !props::belongs(spec, &class) {
+            // a class that belongs to another property: not this check's verdict, but keep the
+            // trace so that it can be replayed against the check that owns the class
+            if foreign_saved.insert(class.clone()) {
+                let fname = format!("foreign-{}-{}-{}.json", prop, class.replace(['/', ':'], "_"), v["seed"].as_u64().unwrap_or(0));
+                let path = root.join("replays").join(&fname);
+                let owner = props::owner_of(&class, spec.engine).unwrap_or("?");
+                let file = json!({
+                    "property": owner,
+                    "engine": engines_of(spec).join("+"),
+                    "class": class,
+                    "text": text,
+                    "batch_seed": seed,
+                    "run_index": v["index"],
+                    "run_seed": v["seed"],
+                    "plan": v["plan"],
+                });
+                let _ = std::fs::write(&path, serde_json::to_string_pretty(&file).unwrap());
+                println!("# note: class {} (property {}) seen in this batch; trace kept at {}", class, owner, path.display());
+            }
             continue;
         }
         if let Some(k) = known_for(&known, prop, &class, &text) {
